@@ -1339,8 +1339,11 @@ def _desugar_dispatch(tree, foreign_text=''):
                                      n.id == hname)
                         expected = 1 + n_body + (1 if guarded is not None
                                                  else 0)
-                        simple_use = guarded is not None or \
-                            call_stmt_of(use) in calls
+                        # (a single simple statement in which the name is
+                        # only ever called: duplicated per entry)
+                        simple_use = guarded is not None or isinstance(
+                            use, (ast.Expr, ast.Assign, ast.Return,
+                                  ast.AugAssign))
                         if calls and len(calls) == n_body and simple_use \
                                 and name_uses(hname) == expected and (
                                     guarded is not None or
